@@ -15,24 +15,29 @@ from common import cq_list, cq_nat, cq_Q, letter_code, cq_bool
 
 
 def py_key(uni, key):
+    """the Python key; for every other key (decided from the key itself) integer items are handed over as numpy integers, as they
+    come out of a numpy array or a DataFrame"""
+    import numpy as np
+    as_np = len(str(key)) % 2 == 1
+    it = (lambda x: np.int64(x) if (as_np and isinstance(x, int) and not isinstance(x, bool)) else x)
     f = key["form"]
     if f == "ellipsis":
         return ...
     if f == "slice":
         return slice(0, 1)
     if f == "bare":
-        return key["item"]
+        return it(key["item"])
     if f == "tuple":
-        return tuple(key["items"])
+        return tuple(it(x) for x in key["items"])
     d = {}
     for style, l, sel in key["entries"]:
         k = l if style == "L" else (uni[l]["name"] if l in uni else l)
         if sel[0] == "single":
-            d[k] = sel[1]
+            d[k] = it(sel[1])
         elif sel[0] == "dim":
             d[k] = fl_dim(sel[1])
         else:
-            d[k] = list(sel[1])
+            d[k] = [it(x) for x in sel[1]]
     return d
 
 
